@@ -244,6 +244,18 @@ def run(ctx):
         ok = bool(oke) and not bad and all(dominated_by_edges(pf, b, oke) for b, _ in fr)
     ctx.ob("R07.5", "pipe.owned-immediately", ok, pf.loc(0), "in posix::pipe both descriptors must be wrapped by File::from_raw_fd right after the successful pipe() with nothing fallible in between")
 
+    # ---- R07.6 (first part) the failure test of the syscall wrappers is not vacuous -------------------
+    ce_calls = callers_of(prog, "posix::check_err")
+    ctx.floor("R07.6", "check_err call sites", len(ce_calls), 10)
+    for fn_, bb_, t_ in ce_calls:
+        ga = t_["f"].get("gargs", [])
+        Tc_ = M.Terms(fn_)
+        arg = Tc_.operand(t_["args"][0])
+        direct = arg[0] == "call" and (arg[1].startswith("libc::")) or (arg[0] == "phi" and all(a_[0] == "call" and a_[1].startswith("libc::") for a_ in arg[1]))
+        ctx.ob("R07.6", "check_err-signed@%s" % fn_.path, ga[:1] in (["i32"], ["i64"], ["isize"]) and direct, fn_.loc(bb_),
+               "check_err::<%s>(%s) in %s: the failure test is `num < 0`, which is vacuous on an unsigned or converted value — the step's failure would be taken for success"
+               % (",".join(ga), M.term_str(arg)[:60], fn_.path))
+
     # ---- R07.6 error discipline ----------------------------------------------------
     ALLOW = {
         (os_start.path, "std::io::Write::write_all"): "child's final report: nothing left to do on failure",
